@@ -392,12 +392,39 @@ impl GkrVerifier for SimGkrVerifier {
         if gkr_proof != self.expected_log_len {
             return Err(SimGkrError);
         }
-        let mut rand_elements = Vec::with_capacity(gkr_proof);
+        let mut rand_elements: Vec<E> = Vec::with_capacity(gkr_proof);
         for _ in 0..gkr_proof {
             rand_elements.push(public_coin.draw().map_err(|_| SimGkrError)?);
         }
+        SEEN_BY_VERIFIER.with(|s| s.borrow_mut().lagrange = Some(rand_elements.iter().map(|e| ints_of(*e)).collect()));
         Ok(LagrangeKernelRandElements::new(rand_elements))
     }
+}
+
+/// What the party that ran last was handed as challenges for the auxiliary segment (base-field
+/// coordinates as integers): the random elements the AIR receives with `get_aux_assertions`, and
+/// the Lagrange-kernel elements its GKR verifier drew. Cleared by the harness before a party runs.
+#[derive(Default, Clone, Debug)]
+pub struct SeenChallenges {
+    pub aux_rands: Option<Vec<Vec<u128>>>,
+    pub lagrange: Option<Vec<Vec<u128>>>,
+}
+
+thread_local! {
+    pub static SEEN_BY_VERIFIER: RefCell<SeenChallenges> = RefCell::new(SeenChallenges::default());
+}
+
+fn ints_of<E: FieldElement>(e: E) -> Vec<u128> {
+    let bytes = utils::Serializable::to_bytes(&e);
+    let w = bytes.len() / E::EXTENSION_DEGREE;
+    bytes
+        .chunks(w)
+        .map(|c| {
+            let mut buf = [0u8; 16];
+            buf[..c.len()].copy_from_slice(c);
+            u128::from_le_bytes(buf)
+        })
+        .collect()
 }
 
 pub struct SimAir<B: SimField> {
@@ -525,6 +552,7 @@ impl<B: SimField> Air for SimAir<B> {
     }
 
     fn get_aux_assertions<E: FieldElement<BaseField = B>>(&self, aux_rand_elements: &[E]) -> Vec<Assertion<E>> {
+        SEEN_BY_VERIFIER.with(|s| s.borrow_mut().aux_rands = Some(aux_rand_elements.iter().map(|e| ints_of(*e)).collect()));
         let Some(aux) = self.inputs.shape.aux.as_ref() else {
             return vec![Assertion::single(0, 0, E::ONE)];
         };
